@@ -286,7 +286,7 @@ def onCreated (n : Node) (cid ident key authPk dhRef : Nat) (ch : Choice) : Node
     match get n1.exits rq.fromId with
     | none => (n1, [])
     | some e =>
-      if e.hop.peer ≠ rq.peer.peer then (n1, [])      -- the exit entry under this id belongs to somebody else by now
+      if e.hop ≠ rq.peer then (n1, [])      -- `is not`: not the very hop object the extension was requested on (peer, address and session key identify it)
       else if n1.inUse rq.toId then (n1, [])          -- the id reserved for the next hop was taken meanwhile
       else
       let k := e.hop.key
@@ -318,7 +318,7 @@ def onExtend (n : Node) (cid ident dh : Nat) (ch : Choice) : Node × List (Out B
       match cand with
       | none => (n, [])
       | some cd =>
-        let rq : CreateReq := ⟨number, ident, newId, cid, ⟨cd.peer, cd.addr, 0⟩, ⟨dstPeer, dstAddr, 0⟩⟩
+        let rq : CreateReq := ⟨number, ident, newId, cid, cd, ⟨dstPeer, dstAddr, 0⟩⟩     -- `cd` is the hop object itself
         sendMsg A { n with creates := n.creates ++ [rq] } dstAddr newId (.create number n.self dh)
 
 /-- on_extended -/
